@@ -33,6 +33,7 @@ func main() {
 	nocache := flag.Bool("nocache", os.Getenv("VERIF_NOCACHE") == "1", "ignore cached verdicts")
 	only := flag.String("only", "", "analyse only these comma-separated properties (no cache); for self-tests")
 	replay := flag.String("replay", "", "re-evaluate the obligation named in a violation file")
+	verbose := flag.Bool("v", false, "print every obligation")
 	genManifest := flag.Bool("gen-manifest", false, "print MANIFEST.json for the registered properties")
 	flag.Parse()
 	if *genManifest {
@@ -102,6 +103,11 @@ func main() {
 			fmt.Println("no result for", p.ID)
 			exit = 1
 			continue
+		}
+		if *verbose {
+			for _, o := range r.Obligations {
+				fmt.Printf("  %-9s [%s] %s @%s — %s\n", o.Status, o.Rule, o.Construct, o.Pos, o.Detail)
+			}
 		}
 		if e := core.Emit(r, p, known, filepath.Join(*verif, "evidence"), seed, cmdline); e > exit {
 			exit = e
